@@ -108,6 +108,9 @@ static rlistx_t ref_channel_list(const char * s, int n) {
 }
 
 static int fits32(long v) { return v >= -2147483647L - 1 && v <= 2147483647L; }
+/* the integer readers are compared on tokens that ARE integers (sign and digits); what they make of 12E1 or 2.5 - the integer part on the pinned tree,
+ * the value with the exponent applied on a variant - is not laid down by "exactly as written" */
+static int plain_int(const char * s, rspan_t sp) { int i = 0; if (sp.len > 0 && (s[sp.off] == '+' || s[sp.off] == '-')) i = 1; if (i >= sp.len) return 0; for (; i < sp.len; i++) if (s[sp.off + i] < '0' || s[sp.off + i] > '9') return 0; return 1; }
 static long ref_int(const char * s, rspan_t sp) {     /* what a decimal token denotes as an integer: its integer part */
     int i = sp.off, neg = 0;
     long v = 0;
@@ -183,8 +186,8 @@ static void check_body(const char * body, int n, int maxidx) {
             else if (res == SCPI_EXPR_OK) {
                 rentry_t * e = &nl.e[idx];
                 if ((isr ? 1 : 0) != e->range || (isr2 ? 1 : 0) != e->range) why = "range-flag";
-                else if (fits32(ref_int(body, e->from)) && vf != (int32_t) ref_int(body, e->from)) why = "int-from-value";      /* a value that does not fit 32 bits has no defined int32 image */
-                else if (e->range && fits32(ref_int(body, e->to)) && vt != (int32_t) ref_int(body, e->to)) why = "int-to-value";
+                else if (plain_int(body, e->from) && fits32(ref_int(body, e->from)) && vf != (int32_t) ref_int(body, e->from)) why = "int-from-value";      /* a value that does not fit 32 bits has no defined int32 image */
+                else if (e->range && plain_int(body, e->to) && fits32(ref_int(body, e->to)) && vt != (int32_t) ref_int(body, e->to)) why = "int-to-value";
                 else if (df != ref_dbl(body, e->from)) why = "double-from-value";
                 else if (e->range && dt != ref_dbl(body, e->to)) why = "double-to-value";
             }
@@ -211,8 +214,8 @@ static void check_body(const char * body, int n, int maxidx) {
                     if ((isr ? 1 : 0) != e->range) why = "range-flag";
                     else if ((int) dims != e->dims) why = "dimensions";
                     else for (d = 0; d < cap && d < e->dims && d < MAXDIM; d++) {
-                        if (fits32(ref_int(body, e->f[d])) && vf[d] != (int32_t) ref_int(body, e->f[d])) { why = "from-value"; break; }
-                        if (e->range && fits32(ref_int(body, e->t[d])) && vt[d] != (int32_t) ref_int(body, e->t[d])) { why = "to-value"; break; }
+                        if (plain_int(body, e->f[d]) && fits32(ref_int(body, e->f[d])) && vf[d] != (int32_t) ref_int(body, e->f[d])) { why = "from-value"; break; }
+                        if (e->range && plain_int(body, e->t[d]) && fits32(ref_int(body, e->t[d])) && vt[d] != (int32_t) ref_int(body, e->t[d])) { why = "to-value"; break; }
                     }
                     if (!why) for (d = e->dims; d < cap; d++) if (vf[d] != 77777 || vt[d] != 88888) { why = "value-slot-beyond-dimensions-written"; break; }
                 }
